@@ -56,7 +56,7 @@ func c05Write(c *Ctx, pkg string, B int64) {
 			if n < 0 {
 				continue
 			}
-			w := &pathWalker{env: newEnv(), lengths: true, maxSteps: 4000}
+			w := &pathWalker{env: newEnv(), lengths: true, maxSteps: 4000, opaque: map[string]bool{"hashBlocks": true, "hashBlocksGeneric": true}}
 			w.env.bind(p, n)
 			w.state = map[string]int64{"d.offset": o}
 			compressed := int64(0)
